@@ -106,7 +106,17 @@ func (g *genCtx) genVars(n int, alias float64) {
 			if g.r.p(alias) && vs.Spare == 0 {
 				vs.Spare = 1 + g.r.n(3)
 			}
+			homogeneous := -1
+			if g.r.p(0.2) {
+				// all items of one kind (functions with a fast path for uniform collections), not in order
+				homogeneous = pick(g.r, []int{kStr, kStr, kInt, kDateTime})
+				m = 2 + g.r.n(4)
+			}
 			for j := 0; j < m; j++ {
+				if homogeneous >= 0 {
+					vs.Items = append(vs.Items, VarSpec{Kind: "sys", Sys: sysValFor(g.r, homogeneous)})
+					continue
+				}
 				if g.r.p(alias * 0.15) {
 					vs.Items = append(vs.Items, VarSpec{Kind: "cr", Res: g.r.n(len(g.res))})
 				} else if g.r.p(0.5) {
@@ -403,7 +413,7 @@ func genC04(seed uint64, run int, tier string) *Case {
 // (values, positions, tape) still come from the seed.
 
 var c04Shapes = []func(r rng, tier string) *Case{
-	shapeWhereSwitch, shapeTickBetweenNow, shapeTZLiteral, shapePatchShared, shapeStallCompile, shapeClockExact, shapeOrder, shapeTypedCallbacks, shapePatterns, shapeTypeHistory, shapeCallerChanges, shapeZoneElements, shapeBigWalk,
+	shapeWhereSwitch, shapeTickBetweenNow, shapeTZLiteral, shapePatchShared, shapeStallCompile, shapeClockExact, shapeOrder, shapeTypedCallbacks, shapePatterns, shapeTypeHistory, shapeCallerChanges, shapeZoneElements, shapeBigWalk, shapeRootCollection, shapePermissiveLegacy,
 }
 
 func baseShape(r rng, tier, name string, types ...string) *genCtx {
@@ -837,6 +847,55 @@ func shapeBigWalk(r rng, tier string) *Case {
 			}
 			ops = append(ops, op)
 		}
+		c.Clients = append(c.Clients, ops)
+	}
+	return c
+}
+
+// shapeRootCollection: collection functions applied to the input collection itself (several
+// resources): what Evaluate returns may be a window of a buffer the library owns - it must stay
+// what it was while other evaluations run (result stability).
+func shapeRootCollection(r rng, tier string) *Case {
+	g := baseShape(r, tier, "root-collection", "Patient", "Observation", "Patient")
+	c := g.c
+	c.Knobs.SwitchThr = 77
+	for _, src := range []string{"tail()", "skip(1)", "skip(1).take(1)", "$this.tail()", "take(2)", "first()", "last()", "where(true).tail()", "tail().id", "skip(2)", "$this", "tail().tail()", "select($this).skip(1)", "%context.tail()", "exclude(first())", "intersect(tail())"} {
+		c.Programs = append(c.Programs, ProgSpec{Src: src})
+	}
+	for ci := 0; ci < 3; ci++ {
+		var ops []Op
+		for oi := 0; oi < 5; oi++ {
+			res := [][]int{{0, 1, 2}, {2, 1, 0}, {0, 1}, {1, 2, 0, 1}, {0, 0, 2}}[r.n(5)]
+			ops = append(ops, Op{Kind: "eval", Prog: r.n(len(c.Programs)), Res: res})
+		}
+		c.Clients = append(c.Clients, ops)
+	}
+	return c
+}
+
+// shapePermissiveLegacy: expressions compiled with Permissive() that really take the legacy
+// branches (snake_case names, the pseudo-fields of date/time primitives, field access on
+// non-elements), shared by several clients from their very first evaluation.
+func shapePermissiveLegacy(r rng, tier string) *Case {
+	g := baseShape(r, tier, "permissive-legacy", "Patient")
+	c := g.c
+	c.Knobs.SwitchThr = 256
+	perm := []COpt{{Kind: "perm"}}
+	for _, src := range []string{"Patient.birth_date", "Patient.birthDate.value_us", "Patient.birthDate.precision", "Patient.birthDate.timezone", "Patient.name.given.value.length", "Patient.managing_organization", "Patient.name.family.value.nosuch",
+		"Patient.deceased", "Patient.multiple_birth", "Patient.meta.last_updated.value_us", "Patient.name.given_x", "Patient.active.value.value"} {
+		c.Programs = append(c.Programs, ProgSpec{Src: src, Opts: perm})
+	}
+	for ci := 0; ci < 3; ci++ {
+		var ops []Op
+		for pi := range c.Programs {
+			if r.p(0.7) {
+				ops = append(ops, Op{Kind: "eval", Prog: pi, Res: []int{0}})
+			}
+		}
+		if len(ops) == 0 {
+			ops = []Op{{Kind: "eval", Prog: 0, Res: []int{0}}}
+		}
+		r.Shuffle(len(ops), func(i, j int) { ops[i], ops[j] = ops[j], ops[i] })
 		c.Clients = append(c.Clients, ops)
 	}
 	return c
